@@ -111,8 +111,12 @@ package directinvoke
 //@ func asyncPayloadCopy
 //@   modifies httpOut, directEvents
 
+// C17 ("classified in the trailer"): net/http sends only declared trailers; ReceiveDirectInvoke has declared End-Of-Response,
+// later declarations are added to it, never put in its place
+//@ event TrailerDeclarationReplaced = call net/http.(Header).Set when a1 == "Trailer"
 //@ func sendPayloadLimitedResponse
 //@   modifies directSend, directEvents
+//@   ensures [C17: the-declared-trailers-are-added-to-not-replaced] delta(TrailerDeclarationReplaced) == 0
 //@   ensures [at-most-one-classification] delta(TrailerComplete) + delta(TrailerOversized) + delta(TrailerTruncated) <= 1
 //@   ensures [classified-after-copy] delta(PlainCopyReturned) == 1 ==> delta(TrailerComplete) + delta(TrailerOversized) + delta(TrailerTruncated) == 1
 //@   ensures [truncated-iff-copy-error] delta(PlainCopyReturned) == 1 ==> (delta(TrailerTruncated) == 1 <==> delta(PlainCopyFailed) == 1)
